@@ -95,6 +95,9 @@ theorem inv_step (s : JobList) (op : Op) (h : Inv s) (hpre : opPre s op = true) 
     simp only [step, addJobIfSuspended_table]
     exact handleJobStatus_inv s pid r i name h hpre
   | removeIfFirst k p r => simp only [step, removeIfS_eq]; exact removeIf_inv s _ _ h
+  | promptClosed m i => exact h
+  | subJobs args => exact h
+  | subWait args => exact h
 
 /-- ★ hence it holds after every history — any length, any number of jobs -/
 theorem inv_reachable (ops : List Op) (s : JobList) (h : Inv s) (hp : PathPre s ops) : Inv (run s ops) := by
@@ -304,6 +307,9 @@ theorem index_stable (s : JobList) (op : Op) (h : Inv s) (hpre : opPre s op = tr
     · exact insert_stable s _ h
     · exact stable_of_sub _ _ h (Sub.refl s)
   | removeIfFirst k p r => simp only [step, removeIfS_eq]; exact stable_of_sub _ _ h (extractLoop_sub _ _ _ _ _ _ _)
+  | promptClosed m i => exact stable_of_sub _ _ h (Sub.refl s)
+  | subJobs args => exact stable_of_sub _ _ h (Sub.refl s)
+  | subWait args => exact stable_of_sub _ _ h (Sub.refl s)
 
 /-- ★ `%%`/`%+` designate the current job, `%-` the previous job, `%n` the job at index `n-1`;
     on a consistent table `%%` succeeds iff the table is non-empty. -/
@@ -377,6 +383,9 @@ theorem last_async (s : JobList) (op : Op) :
     simp only [step, addJobIfSuspended_table]
     exact handleJobStatus_lastAsync s pid r i name
   | removeIfFirst k p r => simp only [step, removeIfS_eq]; exact extractLoop_lastAsync _ _ _ _ _ _ _
+  | promptClosed m i => rfl
+  | subJobs args => rfl
+  | subWait args => rfl
 
 /-! ### the precondition is needed and satisfiable; hypotheses are met by non-trivial histories -/
 
